@@ -33,6 +33,39 @@ let rec sexpr_of (x : sx) : E.sexpr =
       E.XObj (List.map (function L [ A k; v ] -> (bytes_of_string k, sexpr_of v) | _ -> failwith "obj pair") pairs)
   | _ -> failwith "unknown sexpr"
 
+let rec tnode_of (x : sx) : E.tnode =
+  match x with
+  | L [ A "text"; A h ] -> E.NText (bytes_of_string (unhex h))
+  | L [ A "print"; e ] -> E.NPrint (sexpr_of e)
+  | L [ A "assign"; A v; e ] -> E.NAssign (bytes_of_string v, sexpr_of e)
+  | L [ A "if"; c; thn; L (A "elifs" :: elifs); els ] ->
+      E.NIf
+        ( sexpr_of c,
+          block_of thn,
+          List.map (function L [ c; b ] -> (sexpr_of c, block_of b) | _ -> failwith "elif") elifs,
+          opt_block els )
+  | L [ A "each"; A v; arr; body; els ] -> E.NEach (bytes_of_string v, sexpr_of arr, block_of body, opt_block els)
+  | L [ A "for"; init; cond; post; body; els ] ->
+      let init' = match init with L [ A "init"; A v; e ] -> Some (bytes_of_string v, sexpr_of e) | _ -> None in
+      let cond' = match cond with A "none" -> None | e -> Some (sexpr_of e) in
+      let post' =
+        match post with
+        | L [ A "inc"; A v ] -> Some (E.PostInc (bytes_of_string v))
+        | L [ A "dec"; A v ] -> Some (E.PostDec (bytes_of_string v))
+        | L [ A "set"; A v; e ] -> Some (E.PostAssign (bytes_of_string v, sexpr_of e))
+        | _ -> None
+      in
+      E.NFor (init', cond', post', block_of body, opt_block els)
+  | L [ A "break" ] -> E.NBreak
+  | L [ A "continue" ] -> E.NContinue
+  | L [ A "breakif"; e ] -> E.NBreakIf (sexpr_of e)
+  | L [ A "continueif"; e ] -> E.NContinueIf (sexpr_of e)
+  | _ -> failwith "unknown tnode"
+
+and block_of = function L (A "b" :: ns) -> List.map tnode_of ns | _ -> failwith "block"
+
+and opt_block = function A "none" -> None | b -> Some (block_of b)
+
 let bools_of (s : string) : bool list = List.init (String.length s) (fun i -> s.[i] = '1')
 
 let nats_of (s : string) : E.nat list =
@@ -68,6 +101,20 @@ let expand (f : string list) : string option =
         match spec_env (unhex data) with
         | None -> "NA"
         | Some env -> shown_to_string (E.show_sres (E.sem call_spec (nat_of_int 200) env e))
+      in
+      Some (String.concat "\t" [ id; "render"; hex src; data; "S:" ^ expected ])
+  | [ id; "xtpl"; tpl; data ] ->
+      let ns = block_of (parse_sx (unhex tpl)) in
+      let src = string_of_bytes (E.print_template ns) in
+      let expected =
+        match spec_env (unhex data) with
+        | None -> "NA"
+        | Some env -> (
+            match E.run_template call_spec (nat_of_int 400) env ns with
+            | E.TOk (o, _, _) -> "OK:" ^ hexb o
+            | E.TFail -> "ERR"
+            | E.TNoFuel -> "NA"
+            | E.TUnprintable -> "UNMODELLED")
       in
       Some (String.concat "\t" [ id; "render"; hex src; data; "S:" ^ expected ])
   | [ id; "xtext"; src ] ->
